@@ -15,7 +15,8 @@ AtomChoices == <<"1", "2", "3">>
 \* sequences of <<key, atom>>, in call order; 4 and 5 are one dict written in two orders
 OptChoices == <<<<>>, <<<<"tag", "A">>>>, <<<<"tag", "B">>>>,
                <<<<"tag", "A">>, <<"mem", "1">>>>, <<<<"mem", "1">>, <<"tag", "A">>>>>>
-ExpoChoices == <<<<>>, <<<<"tag", "B">>>>, <<<<"lim", "1">>>>>>
+\* 2 and 3 export the same option name with different values
+ExpoChoices == <<<<>>, <<<<"tag", "B">>>>, <<<<"tag", "A">>>>, <<<<"lim", "1">>>>>>
 Names == {NameChoices[k] : k \in 1..NNames}
 Atoms == {AtomChoices[k] : k \in 1..NAtoms}
 OptSeqs == {OptChoices[k] : k \in 1..NOpts}
@@ -32,6 +33,7 @@ E(kind, name, pos, kw, opts, expo, via) ==
 \* inner expressions usable as arguments (depth 1)
 Inner == IF Nest = 0 THEN {}
          ELSE {E(k, "n1", <<A("1")>>, <<>>, o, <<>>, "api") : k \in {"task", "sched"}, o \in OptSeqs}
+              \cup {E("task", "n1", <<A("1")>>, <<>>, <<>>, <<<<"tag", v>>>>, "api") : v \in {"A", "B"}}
 AtomArgs == {A(a) : a \in Atoms}
 FlatTuples == {<<<<a>>, <<>>>> : a \in AtomArgs} \cup {<<<<A("1")>>, <<<<"k", b>>>>>> : b \in AtomArgs}
               \cup {<<<<>>, <<>>>>}
@@ -41,16 +43,26 @@ FlatTuples == {<<<<a>>, <<>>>> : a \in AtomArgs} \cup {<<<<A("1")>>, <<<<"k", b>
 UFlat == {E(k, "n1", at[1], at[2], o, x, via) :
             k \in {"task", "sched"}, at \in FlatTuples, o \in OptSeqs, x \in ExpoSeqs, via \in {"api", "ctor"}}
          \cup {E(k, n, <<A("1")>>, <<>>, o, <<>>, "api") : k \in {"task", "sched"}, n \in Names, o \in OptSeqs}
+\* exported-value slice (independent of NExpo): equal exported option NAMES with different VALUES,
+\* one and two exported options, for task and scheduler expressions, through the api and through the
+\* constructor, with and without a plain call-time option next to them.  The value of an exported
+\* option is part of the denoted call (Denote: EffOpts holds the <<name, value>> pairs).
+ExpoValChoices == {<<<<"tag", "A">>>>, <<<<"tag", "B">>>>,
+                   <<<<"lim", "1">>, <<"grp", "g">>>>, <<<<"lim", "2">>, <<"grp", "g">>>>}
+UExpoVal == {E(k, "n1", <<A("1")>>, <<>>, o, x, "api") :
+               k \in {"task", "sched"}, o \in {OptChoices[1], <<<<"mem", "1">>>>}, x \in ExpoValChoices}
+            \cup {E(k, "n1", <<A("1")>>, <<>>, <<>>, x, "ctor") : k \in {"task", "sched"}, x \in ExpoValChoices}
 \* nested part: expressions as arguments of task / scheduler / operator expressions
 UNest == {E(k, "n1", <<X(e)>>, <<>>, o, <<>>, "api") :
             k \in {"task", "sched"}, e \in Inner, o \in {OptChoices[1], OptChoices[2]}}
-U == UFlat \cup UNest
+U == UFlat \cup UExpoVal \cup UNest
      \cup {E("simple", n, <<a>>, <<>>, <<>>, <<>>, "api") :
              n \in {"add", "getitem"}, a \in AtomArgs \cup {X(e) : e \in Inner}}
      \cup {E("value", "-", <<A(a)>>, <<>>, <<>>, <<>>, "ctor") : a \in Atoms}
 \* the api route cannot express everything the constructor can: drop duplicates that would be the
-\* same construction (via only matters for scheduler expressions with exports)
-Relevant(e) == e.via = "api" \/ (e.kind = "sched" /\ e.expo # <<>>) \/ e.kind = "value"
+\* same construction (via only matters for scheduler expressions with exports; the exported-value
+\* slice keeps both routes for task expressions as well)
+Relevant(e) == e.via = "api" \/ (e.kind = "sched" /\ e.expo # <<>>) \/ e.kind = "value" \/ e \in UExpoVal
 USeq == SetToSeq({e \in U : Relevant(e)})
 N == Len(USeq)
 \* a scheduler expression occurs (top level or as an argument)
